@@ -342,13 +342,58 @@ namespace
     {
     }
 
-    template <class K, bool Erased>
+    // stateless instrumented allocators of two different types (state in statics): behind the type erasure they must not compare equal
+    template <int Tag>
+    struct sl_alloc
+    {
+        using is_stateful = std::false_type;
+        static probe_handle& h()
+        {
+            static probe_handle p;
+            return p;
+        }
+        void* allocate_node(std::size_t size, std::size_t al)
+        {
+            return h()->acquire(false, 1, size, al);
+        }
+        void deallocate_node(void* p, std::size_t size, std::size_t al) noexcept
+        {
+            h()->release(false, p, 1, size, al);
+        }
+        void* allocate_array(std::size_t c, std::size_t size, std::size_t al)
+        {
+            return h()->acquire(true, c, size, al);
+        }
+        void deallocate_array(void* p, std::size_t c, std::size_t size, std::size_t al) noexcept
+        {
+            h()->release(true, p, c, size, al);
+        }
+    };
+    struct stateful_leaves
+    {
+        static constexpr const char* suffix = "";
+        probe_raw L1, L2;
+        stateful_leaves(probe_handle h1, probe_handle h2) : L1(h1), L2(h2) {}
+    };
+    struct stateless_leaves
+    {
+        static constexpr const char* suffix = "-stateless";
+        sl_alloc<1> L1;
+        sl_alloc<2> L2;
+        stateless_leaves(probe_handle h1, probe_handle h2)
+        {
+            sl_alloc<1>::h() = h1;
+            sl_alloc<2>::h() = h2;
+        }
+    };
+
+    template <class K, bool Erased, class Leaves = stateful_leaves>
     void program_kind(const args& a)
     {
         using C   = typename K::C;
         using Ref = typename K::Ref;
         using AL  = typename C::allocator_type;
-        std::string kind = std::string(K::name) + (Erased ? "/any_std_allocator" : "/std_allocator");
+        std::string kind = std::string(K::name) + (Erased ? "/any_std_allocator" : "/std_allocator") + Leaves::suffix;
         if (a.kind != "all" && a.kind != kind)
             return;
         for (long c = a.from; c < a.to; ++c)
@@ -356,14 +401,16 @@ namespace
                 auto r  = case_rng(a.seed, a.group, kind, c);
                 auto h1 = make_probe("leaf1", false, "C10"), h2 = make_probe("leaf2", false, "C10");
                 {
-                    probe_raw L1(h1), L2(h2);
-                    auto      check = [&] {
+                    Leaves lv(h1, h2);
+                    auto&  L1    = lv.L1;
+                    auto&  L2    = lv.L2;
+                    auto   check = [&] {
                         h1->check();
                         h2->check();
                     };
                     bool same = r.chance(30);
                     op("two %s containers bound to %s", K::name, same ? "the same allocator object" : "different allocator objects");
-                    std::unique_ptr<C>   c1(new C(AL(L1))), c2(new C(AL(same ? L1 : L2)));
+                    std::unique_ptr<C>   c1(new C(AL(L1))), c2(same ? new C(AL(L1)) : new C(AL(L2)));
                     std::unique_ptr<Ref> r1(new Ref), r2(new Ref);
                     long                 next = 1;
                     auto compare = [&](const char* after) {
@@ -555,6 +602,38 @@ namespace
                             if (r.chance(50))
                                 up.push_back(std::move(mv));
                         }
+                        else if (x < 93)
+                        {
+                            // an array whose element constructor throws: the memory obtained for it goes back to the same allocator,
+                            // as the array it was obtained as
+                            struct thrower
+                            {
+                                long v;
+                                thrower()
+                                {
+                                    if (--countdown() == 0)
+                                        throw 42;
+                                    v = 7;
+                                }
+                                static long& countdown()
+                                {
+                                    static long c = 0;
+                                    return c;
+                                }
+                            };
+                            std::size_t n = r.range(1, 6);
+                            thrower::countdown() = long(r.range(1, n));
+                            op("allocate_unique<T[]>(%zu) on leaf%d, element %ld throws", n, x % 2 + 1, thrower::countdown());
+                            try
+                            {
+                                auto arr = allocate_unique<thrower[]>(x % 2 ? L2 : L1, n);
+                                viol("C10", "C10/" + kind + "/harness", "the injected constructor failure did not propagate");
+                            }
+                            catch (int)
+                            {
+                            }
+                            count("throwing_array_creations");
+                        }
                         else if (up.size() >= 2)
                         {
                             op("swap two unique_ptrs");
@@ -619,4 +698,9 @@ int main(int argc, char** argv)
 void run_programs_erased(const vf::args& a)
 {
     all_programs<true>(a);
+    using KS = kinds<erased_alloc>;
+    program_kind<KS::list_k, true, stateless_leaves>(a);
+    program_kind<KS::set_k, true, stateless_leaves>(a);
+    program_kind<KS::vector_k, true, stateless_leaves>(a);
+    program_kind<KS::umap_k, true, stateless_leaves>(a);
 }
